@@ -160,6 +160,40 @@ def run(ctx):
                  sample={"suite": "bounds on real solves (3D, T-dependent, axial profile)", "failures": bad[:2]})
         for what, detail in bad:
             viol.append((c, what, detail))
+    # a material whose diffusivity jumps by a factor of ten within one radial cell next to a heat-exchanging wall (steep
+    # table, steep initial profile, coarse grid): every half-node coefficient, the one towards the ghost included, must
+    # stay non-negative (it is a mean of two positive nodal values)
+    for n in range(6 if ctx.quick() else 40):
+        c = tc.gen_case(rng, ndim=1 + n % 2, inner=("flux", "conv", "film")[n % 3], outer="ins", steady=False, const_mat=False, nsteps=3)
+        c.nr = 5
+        c.r, c.t = 1.0, 0.2                      # dr = 0.05: dt*a/dr^2 = 0.4 .. 30, wall numbers dr*q/k, dr*h/k of order 1
+        c.mat_T = np.array([-20000.0, 400.0, 600.0, 40000.0])
+        c.mat_k = np.array([20.0, 20.0, 20.0, 20.0])
+        c.mat_a = np.array([1.0, 1.0, 10.0, 10.0]) if n % 2 == 0 else np.array([10.0, 10.0, 1.0, 1.0])
+        c.film = 400.0
+        prof = np.linspace(300.0, 1100.0, c.nr) if (n // 2) % 2 == 0 else np.linspace(1100.0, 300.0, c.nr)
+        shape = {1: (c.nr,), 2: (c.nr, c.nt)}[c.ndim]
+        c.T0field = np.broadcast_to(prof.reshape((c.nr,) + (1,) * (c.ndim - 1)), shape).copy()
+        c.times = np.array([0.0, 0.001, 0.002, 0.004])
+        c.substep = 1
+        sh = (len(c.times), c.nt, c.nz)
+        if c.inner == "flux":
+            c.inner_data = np.full(sh, 2.0 ** 17 * rng.choice([1.0, 2.0]))      # dr*q/k of several hundred K
+        elif c.inner == "conv":
+            c.inner_data = np.full((len(c.times), c.nz), 1100.0 if prof[0] < prof[-1] else 300.0)
+        else:
+            c.inner_data = np.full((c.nz,), 1100.0 if prof[0] < prof[-1] else 300.0)
+            c.inner_data2 = np.full((c.nz,), 400.0)
+        try:
+            bad = check_case(c, substep=1)
+        except (RuntimeError, ValueError) as e:
+            ctx.notes.append("real solve raised (C17 / table range, not C06): %r" % (e,))
+            nraised += 1
+            continue
+        ctx.case(("real-jump", n), nontrivial=True, tag="real/%dD/%s-ins/property jump next to the wall" % (c.ndim, c.inner),
+                 sample={"suite": "bounds on real solves (diffusivity jump next to a heat-exchanging wall)", "failures": bad[:2]})
+        for what, detail in bad:
+            viol.append((c, what, detail))
     # F17 probe
     f17 = tc.gen_case(rng, ndim=1, inner="flux", outer="ins", steady=False, const_mat=True, thick_ok=True, nsteps=1)
     f17.r, f17.t, f17.nr, f17.h = 1.0, 0.8, 2, 1.0
